@@ -52,6 +52,18 @@ class W(object):
             self.viol.write(json.dumps(rec) + '\n')
             self.viol.flush()
 
+    def guard(self, fn, *args):
+        """run one input's oracle; an exception inside the harness is recorded, never silently lost"""
+        try:
+            return fn(*args)
+        except (KeyboardInterrupt, SystemExit):
+            raise
+        except BaseException:
+            self.stats['harness_errors'] += 1
+            if '_harness_error' not in self.__dict__:
+                self._harness_error = traceback.format_exc()[-3000:]
+            return None
+
     def sample(self, x, cap=6):
         if len(self.samples) < cap:
             self.samples.append(x)
@@ -66,6 +78,7 @@ class W(object):
         st['_samples'] = self.samples
         st['_wall'] = time.time() - self.t0
         st['_interpreter'] = VER
+        st['_harness_error'] = getattr(self, '_harness_error', None)
         with open(os.path.join(self.outdir, 'stats.json'), 'w') as f:
             json.dump(st, f)
 
